@@ -8,6 +8,10 @@ import (
 
 func valueToPointer(val string) string {
 	valLen := len(val)
+	if valLen == 0 {
+		return ""
+	}
+
 	firstCharIsAt := val[0] == '@'
 	lastCharIsAt := val[valLen-1] == '@'
 	if valLen > 2 && firstCharIsAt && lastCharIsAt {
